@@ -8,3 +8,8 @@ pub fn write_u32v_le(dst: &mut [u8], input: &[u32])
 pub fn zero(dst: &mut [u8])
     ensures final(dst)@ == zeros(old(dst).len() as int)
 { unimplemented!() }
+#[verifier::external_body]
+pub fn read_u32v_le(dst: &mut [u32], input: &[u8])
+    requires old(dst).len() * 4 == input.len(), old(dst).len() == 16
+    ensures final(dst)@ == words_of(input@)
+{ unimplemented!() }
